@@ -56,7 +56,7 @@ CLASSES: dict = {
     "str_empty": ("", lambda r: ""),
     "str_int": ("42", lambda r: _digits(r, r.choice([1, 2, 3, 5]))),  # decimal digits, < 10**6: a valid timestamp
     "str_negint": ("-7", lambda r: "-" + _digits(r, r.choice([1, 2, 3]))),
-    "str_ts": ("1000000000000", lambda r: _digits(r, r.range(13, 16))),  # isdigit, int() lands in int_ts
+    "str_ts": ("1000000000000", lambda r: _digits(r, r.range(13, 15))),  # isdigit, int() lands in int_ts
     "str_bigdigits": ("2000000000000000000", lambda r: r.choice("2345678") + "".join(r.choice("0123456789") for _ in range(18))),  # isdigit, int() lands in int_large
     "str_hugeint": ("7" * 4400, lambda r: _digits(r, r.range(4301, 5000))),  # longer than MAX_STR_INT
     "str_float": ("3.5", lambda r: f"{r.range(1, 999)}.{r.range(1, 9)}5"),
